@@ -136,7 +136,7 @@ func judge(eng *Engine, cfg *Config, ck *CheckCfg, property, tier string, seed i
 			}
 			v := &violation{Entry: t.Entry.Entry, Label: r.Label, Kind: r.Kind, Msg: r.Msg, Pos: r.Pos, Fn: r.Fn, Picks: r.Picks, Draws: r.Draws, Finding: r.Finding, Second: r.Second, EngineOnly: r.EngineOnly}
 			if crashKinds[r.Kind] {
-				if !ck.PanicsCount && !(ck.LocksCount && (r.Kind == "self-deadlock" || r.Kind == "lock-leak")) {
+				if !ck.PanicsCount && !(ck.LocksCount && (r.Kind == "self-deadlock" || r.Kind == "lock-leak" || r.Kind == "use-after-recycle")) {
 					otherCrash++
 					continue
 				}
